@@ -28,7 +28,9 @@ Inductive hop :=
 (* Bucket.get rounds the window outwards to whole milliseconds before it calls get_events:
    starttime.replace(microsecond = 1000 * int(us / 1000));  endtime: 1 + int(us / 1000)
    milliseconds, carrying into the seconds.  (A datetime is always truthy, so `if starttime:`
-   is `is not None`.) *)
+   is `is not None`.)  Since 49e3288 an aware edge is converted to UTC before that arithmetic:
+   a window edge is its INSTANT here, and the rounding is a function of the instant for every
+   utcoffset and either `fold` (Model/Window.v: bucket_round_start_tz / bucket_round_end_tz). *)
 Definition get_round_start (t : Z) : Z := floor_ms t.
 Definition get_round_end (t : Z) : Z := floor_ms t + 1000.
 
